@@ -1,16 +1,15 @@
 #!/bin/bash
+# usage: tools/reverify_seeds.sh [parallelism] [name-glob]
 # Re-confirms every /verif/seeded/<name> against the current /repo HEAD and the
-# current checks, updating meta.json (annotations are preserved).
+# current checks, updating meta.json (annotations are preserved).  The demo's
+# place (and build tags) are taken from the meta.json of the first confirmation.
 cd /verif
-for d in seeded/*/; do
-  name=$(basename $d)
-  prop=${name%%-*}
-  extra=""
-  case $name in
-    C13-3) export SEED_DEST=internal/marshal ;;
-    C18-3) export SEED_TAGS=verif ;;
-    *) unset SEED_DEST SEED_TAGS ;;
-  esac
-  tools/verify_seed.sh /verif/seeded/$name $prop $name 2>&1 | grep "suite_ok\|check \|NOT-APPLY\|COMPILE" | cut -c1-260
-  unset SEED_DEST SEED_TAGS
-done
+P=${1:-4}; G=${2:-*}
+one() {
+  name=$1; prop=${name%%-*}
+  dest=$(python3 -c "import json;m=json.load(open('/verif/seeded/$name/meta.json'));print(m.get('confirmed_by_coordinator',{}).get('demo_placed_in',''))" 2>/dev/null)
+  tags=""; grep -q "verifhook" /verif/seeded/$name/*_test.go 2>/dev/null && tags=verif
+  SEED_DEST=$dest SEED_TAGS=$tags /verif/tools/verify_seed.sh /verif/seeded/$name $prop $name 2>&1 | grep "suite_ok\|check \|NOT-APPLY\|COMPILE" | cut -c1-200
+}
+export -f one
+ls -d seeded/$G/ | xargs -n1 basename | xargs -P $P -I{} bash -c 'one {}'
